@@ -141,6 +141,8 @@ def stmt(s, ind):
     if k == "assert":
         return f"{pad}assert {expr(s['e'])}\n"
     if k == "expr":
+        if s["e"].get("k") == "get":      # a statement that starts with `(` would be read as a call of the previous line's value
+            return f"{pad}get {expr(s['e']['e'])}\n"
         return f"{pad}{expr(s['e'])}\n"
     if k == "break":
         return f"{pad}break\n"
